@@ -18,7 +18,8 @@
 //	      handshake of A alone: <incoming> is everything the peer will ever send
 //	      (then EOF); v = ed25519 verdict for the (key, signature) the peer presents.
 //	      -> ok rem=<key> w=<bytes A wrote> rest=<unread> | err:<cls>
-//	w <dir> <data>          sender.Write(data)     -> ok n=<n> fr=<frames> d=<digest of (counter,len,chunk)*>
+//	w <dir> <data>          sender.Write(data)     -> ok n=<n> fr=<frames> d=<digest of the RAW bytes put on the wire>
+//	                        (err:wire if they do not open under the derived key and the expected counters)
 //	r <dir> <size>          receiver.Read(buf[:size]) -> ok <summ> | err:eof|short|decrypt|toolong
 //	flip <dir> <off> <bit> | swap <dir> <i> <j> | dup <dir> <i> | drop <dir> <i> | trunc <dir> <n>
 //	replay <dir> <k> | cross <dir> <k> | inject <dir> <bytes>
@@ -32,7 +33,10 @@
 // next frame the sender produced (VIOL:tamper-accepted / VIOL:honest-frame-rejected);
 // without tampering nothing is lost (VIOL:lost); `hsx` may succeed only with a key
 // whose signature over A's challenge verifies (VIOL:unauthenticated-key) and must
-// succeed for a fully honest peer (VIOL:honest-rejected).
+// succeed for a fully honest peer (VIOL:honest-rejected); every frame a real
+// connection writes, decrypted with the independently derived key, must carry
+// nothing but the chunk — zero padding (VIOL:padding-leak; regression of the stale
+// pool memory fixed by /repo commit 90b41c9888).
 package main
 
 import (
@@ -210,17 +214,23 @@ func sealFrame(key []byte, ctr uint64, declared uint32, payload []byte) []byte {
 	return a.Seal(nil, nonceOf(ctr), fr, nil)
 }
 
-// material of sealed frames from counter ctr on; ok=false if a frame does not open
-func frameMaterial(key []byte, wire []byte, ctr uint64) (mat []byte, frames int, ok bool) {
+// material of sealed frames from counter ctr on; ok=false if a frame does not open;
+// dirty = number of non-zero padding bytes found behind the chunks
+func frameMaterial(key []byte, wire []byte, ctr uint64) (mat []byte, frames int, ok bool, dirty int) {
 	a, _ := chacha20poly1305.New(key)
 	for len(wire) >= sealedSize {
 		fr, err := a.Open(nil, nonceOf(ctr), wire[:sealedSize], nil)
 		if err != nil {
-			return nil, frames, false
+			return nil, frames, false, dirty
 		}
 		l := binary.LittleEndian.Uint32(fr)
 		if l > dataMax {
-			return nil, frames, false
+			return nil, frames, false, dirty
+		}
+		for _, b := range fr[4+l:] {
+			if b != 0 {
+				dirty++
+			}
 		}
 		var c [8]byte
 		binary.LittleEndian.PutUint64(c[:], ctr)
@@ -230,7 +240,7 @@ func frameMaterial(key []byte, wire []byte, ctr uint64) (mat []byte, frames int,
 		ctr++
 		frames++
 	}
-	return mat, frames, true
+	return mat, frames, true, dirty
 }
 
 func digest8(b []byte) string {
@@ -246,15 +256,15 @@ func summ(b []byte) string {
 	return fmt.Sprintf("%d:#%s", len(b), hex.EncodeToString(h[:16]))
 }
 
-func wsum(key, w []byte) string {
+func wsum(key, w []byte) (string, int) {
 	if len(w) < 35 {
-		return "undecryptable"
+		return "undecryptable", 0
 	}
-	mat, n, ok := frameMaterial(key, w[35:], 0)
+	_, n, ok, dirty := frameMaterial(key, w[35:], 0)
 	if !ok {
-		return "undecryptable"
+		return "undecryptable", dirty
 	}
-	return fmt.Sprintf("%d:%s", n, digest8(append(append([]byte{}, w[:35]...), mat...)))
+	return fmt.Sprintf("%d:%s", n, digest8(w)), dirty
 }
 
 func encEph(pub []byte) []byte { return append([]byte{0x22, 0x0a, 0x20}, pub...) }
@@ -431,8 +441,9 @@ func execHs(t []string) (string, string) {
 	_, sendB, _ := splitKeys(c.okm, c.ephPubB, c.ephPubA)
 	remA := ra.sc.RemotePubKey()
 	remB := rb.sc.RemotePubKey()
-	out := fmt.Sprintf("ok remA=%s remB=%s ab=%s ba=%s", hex.EncodeToString(remA[:]), hex.EncodeToString(remB[:]),
-		wsum(sendA, wab.log), wsum(sendB, wba.log))
+	sumA, dirtyA := wsum(sendA, wab.log)
+	sumB, dirtyB := wsum(sendB, wba.log)
+	out := fmt.Sprintf("ok remA=%s remB=%s ab=%s ba=%s", hex.EncodeToString(remA[:]), hex.EncodeToString(remB[:]), sumA, sumB)
 	st = &state{a: ra.sc, b: rb.sc,
 		ab: &dirState{w: wab, sendKey: sendA, sendCtr: 1, accepted: 1},
 		ba: &dirState{w: wba, sendKey: sendB, sendCtr: 1, accepted: 1}}
@@ -445,6 +456,8 @@ func execHs(t []string) (string, string) {
 	orc := "ok"
 	if !bytes.Equal(remA[:], c.pubB) || !bytes.Equal(remB[:], c.pubA) {
 		orc = "VIOL:wrong-remote-key after a successful handshake a side holds a key that is not its peer's"
+	} else if dirtyA+dirtyB > 0 {
+		orc = fmt.Sprintf("VIOL:padding-leak %d non-zero padding bytes in the handshake frames", dirtyA+dirtyB)
 	}
 	return out, orc
 }
@@ -608,12 +621,25 @@ func execData(t []string) (string, string) {
 		if werr != nil || n != len(data) {
 			orc = fmt.Sprintf("VIOL:short-write Write accepted %d of %d bytes, err=%v", n, len(data), werr)
 		}
-		mat, frames, ok := frameMaterial(d.sendKey, added, d.sendCtr)
+		mat, frames, ok, dirty := frameMaterial(d.sendKey, added, d.sendCtr)
 		if !ok || len(added)%sealedSize != 0 {
 			return "err:wire", orc
 		}
 		d.sendCtr += uint64(frames)
-		return fmt.Sprintf("ok n=%d fr=%d d=%s", n, frames, digest8(mat)), orc
+		// the frames carry exactly the data, in 1024-byte chunks under consecutive counters
+		var chunks []byte
+		for m := mat; len(m) >= 12; {
+			l := int(binary.LittleEndian.Uint32(m[8:12]))
+			chunks = append(chunks, m[12:12+l]...)
+			m = m[12+l:]
+		}
+		if orc == "ok" && !bytes.Equal(chunks, data[:n]) {
+			orc = "VIOL:wire-content the frames written do not carry the data written"
+		}
+		if orc == "ok" && dirty > 0 {
+			orc = fmt.Sprintf("VIOL:padding-leak %d non-zero padding bytes behind the chunk(s) of this Write", dirty)
+		}
+		return fmt.Sprintf("ok n=%d fr=%d d=%s", n, frames, digest8(added)), orc
 	case "r":
 		size, err := parseNat(t[2])
 		if err {
